@@ -64,6 +64,7 @@ struct DeclOpts
     int p_default = 30;
     bool toggles_only = false;
     int min_entries = 0;
+    bool dash_letter = false; // the dash itself may be a short name (it then only works inside bundles: -a-)
 };
 
 static std::string gen_value(vf::Src& src)
@@ -98,6 +99,8 @@ static void gen_decl(vf::Src& src, Case& c, const DeclOpts& o)
     int n = src.irange(o.min_entries, o.max_entries);
     std::vector<std::string> names = name_pool();
     std::string letters = letter_pool;
+    if (o.dash_letter && src.coin(15))
+        letters = "-" + letters.substr(0, 3);
     for (int i = 0; i < n; ++i)
     {
         Entry e;
@@ -845,6 +848,7 @@ static void gen_c11(vf::Src& src, Case& c, bool exhaustive)
     o.min_entries = 1;
     o.env = true;
     o.p_default = 45;
+    o.dash_letter = true;
     o.p_optional = 100;
     gen_decl(src, c, o);
     gen_limit(src, c);
